@@ -684,7 +684,7 @@ def run_c12(chk):
     chk.add(memo_group_ordered_pairs=npairs)
     lives, seen, spent = select(cand, sum(map(cost_of, dedupe(must))) + (24 if quick else 700), must)
     chk.add(context_items_covered=len(seen))
-    lives, events, where, viol = execute_and_judge(chk, "C12", lives, 24 if quick else 200, "c12")
+    lives, events, where, viol = execute_and_judge(chk, "C12", lives, 16 if quick else 200, "c12")
     _evidence(chk, lives, events, "Generate")
     chk.assumptions += [
         "processes share nothing but the registries (no cache directory, no option files), so events of distinct "
@@ -768,7 +768,7 @@ def run_c13(chk):
         # (one long-lived process per behaviour on the conf axis: the option files are fixed at Spawn)
         gs = dict(g, Proc=["p1"] if name == "conf" else ["p1", "p2", "p3"], Seed=seeds, Route=[0, 1])
         # (the two-mesh requests are lived alone under every seed / offset; their random histories only in thorough)
-        nsim = (0 if name == "twomesh" else 60) if quick else 500
+        nsim = (0 if name == "twomesh" else 48) if quick else 500
         jobs.append(lambda gs=gs, name=name, i=i, nsim=nsim: simulate_histories(
             f"c13-sim-{name}", gs, nsim, 40 if quick else 60, chk.seed + 31 + i) if nsim else ([], None))
     res = run_parallel(jobs0 + jobs)[len(jobs0):]
@@ -790,7 +790,7 @@ def run_c13(chk):
     have = {sub for x in lives for _, sub, _ in contexts(x) if sub[0] == "N"}
     lives += [single[k] for k in sorted(recipes - have)]
     chk.add(context_items_covered=len(seen), requests_only_made_alone=len(recipes - have))
-    lives, events, where, viol = execute_and_judge(chk, "C13", lives, 24 if quick else 150, "c13")
+    lives, events, where, viol = execute_and_judge(chk, "C13", lives, 16 if quick else 150, "c13")
     _evidence(chk, lives, events, "Name")
     classes = {e["klass"] for e in events if e.get("hasclass")}
     mods = {e["modname"] for e in events if e["act"] == "Name"}
